@@ -3,6 +3,7 @@ package httproto
 import (
 	"io"
 
+	erpc "github.com/henrylee2cn/erpc/v6"
 	"github.com/henrylee2cn/erpc/v6/socket"
 )
 
@@ -80,4 +81,39 @@ func VX_C06_HTTPBytes(args []int) {
 	}()
 	vxAssert(w.off <= len(stream), "never consumed more than was sent")
 	vxCover("c06.http.bytes")
+}
+
+func init() { vxRegister("VX_C06_HTTPOversizeOnSession", VX_C06_HTTPOversizeOnSession) }
+
+// VX_C06_HTTPOversizeOnSession: on a session speaking the HTTP-style protocol
+// a request announces a body far above the read limit; what follows on the
+// connection (the start of that payload) happens to look like another request.
+// The session is disconnected before the payload is consumed: the embedded
+// request is never handled. Header order as the framework writes it (variant
+// 0) or with the content type first (variant 1). args: variant
+func VX_C06_HTTPOversizeOnSession(args []int) {
+	socket.SetMessageSizeLimit(64)
+	defer socket.SetMessageSizeLimit(0)
+	p := erpc.NewPeer(erpc.PeerConfig{})
+	handled := 0
+	p.SetUnknownCall(func(ctx erpc.UnknownCallCtx) (interface{}, *erpc.Status) {
+		handled++
+		return []byte("r"), nil
+	})
+	conn := newVxConn("srv:1", "cli:2")
+	s, st := p.ServeConn(conn, NewHTTProtoFunc())
+	vxAssume(st.OK())
+	hdr := "POST /big HTTP/1.1\r\n"
+	if args[0] == 0 {
+		hdr += "Content-Length: 9000000\r\nContent-Type: application/json;charset=utf-8\r\n"
+	} else {
+		hdr += "Content-Type: application/json;charset=utf-8\r\nContent-Length: 9000000\r\n"
+	}
+	hdr += "X-Seq: 1\r\nX-Mtype: 1\r\n\r\n"
+	payload := "POST /steal HTTP/1.1\r\nContent-Type: application/json;charset=utf-8\r\nContent-Length: 1\r\nX-Seq: 2\r\nX-Mtype: 1\r\n\r\n1"
+	conn.feed([]byte(hdr + payload))
+	vxWaitIdle()
+	vxAssert(handled == 0, "the payload of a frame announcing more than the read limit is not consumed (what it contains is never handled as a message)")
+	vxAssert(conn.isClosed() && !s.Health(), "a frame announcing a larger size than the read limit causes disconnection")
+	vxCover("c06.http.oversize-session")
 }
